@@ -142,6 +142,19 @@ func Successors(root, sub *Node, emit Emit) {
 				p.Children = nk
 				out("swapNext")
 			}
+			// compound edit "two elements of a list repeated": n and a later sibling are both duplicated in place.
+			// One deviation — "the list repeats itself" — and the smallest input on which code that COLLECTS the
+			// repeated elements (in a map, a set, a sorted slice) has two things to put in some order.
+			if listElement(n, p) && len(saved) <= 16 {
+				for j := i + 1; j < len(saved) && j <= i+8; j++ {
+					nk = make([]*Node, 0, len(saved)+2)
+					nk = append(nk, saved[:i+1]...)
+					nk = append(nk, saved[i:j+1]...)
+					nk = append(nk, saved[j:]...)
+					p.Children = nk
+					out(fmt.Sprintf("dup2:%d", j))
+				}
+			}
 			p.Children = saved
 			// compound edit "a second, different element": n is duplicated and ONE leaf of the copy is
 			// edited; the copy goes after (A) or before (B) the original. Counted as one deviation: it is
